@@ -1,7 +1,7 @@
 #![allow(non_camel_case_types, non_snake_case, dead_code)]
 #[tarpc::service]
 pub trait Rej52 {
-    async fn a_b(a0: i32, a1: String) -> i32;
-    async fn a_b_(a0: i32, a1: i32);
+    async fn a_b(a0: i32, a1: String);
+    async fn a_b_(a0: i32, a1: i32) -> String;
 }
 fn main() {}
